@@ -8,6 +8,7 @@ import (
 	"path/filepath"
 	"strings"
 	"sync"
+	"sync/atomic"
 	"syscall"
 	"time"
 
@@ -26,13 +27,16 @@ type sandboxRun struct {
 	marker         bool
 }
 
+var sandboxEnvSeq int64
+
 func runSandbox(dir string, pre []string, sandbox string, args []string, marker string) (*sandboxRun, error) {
+	henv := vlib.HostileEnvs[int(atomic.AddInt64(&sandboxEnvSeq, 1))%len(vlib.HostileEnvs)]
 	os.Remove(marker)
 	argv := append(append([]string{}, pre...), sandbox)
 	argv = append(argv, args...)
 	cmd := exec.Command(argv[0], argv[1:]...)
 	cmd.Dir = dir
-	cmd.Env = append(os.Environ(), "VERIF_MARKER="+marker)
+	cmd.Env = append(append(os.Environ(), "VERIF_MARKER="+marker), henv...)
 	var so, se bytes.Buffer
 	cmd.Stdout, cmd.Stderr = &so, &se
 	cmd.SysProcAttr = &syscall.SysProcAttr{Setpgid: true}
@@ -265,6 +269,9 @@ func c15() {
 		os.MkdirAll(dir, 0o755)
 		defer os.RemoveAll(dir)
 		pp := filepath.Join(dir, "seccomp.yml")
+		if i%4 == 3 { // the policy file may have any legal name
+			pp = filepath.Join(dir, []string{"my policy.yml", "política-ポリシー.yaml", "-p.yml", "a;b&c.yml", "POLICY.YML", "no-extension"}[(i/4)%6])
+		}
 		// every fifth policy gets a final group of its own that decides about a probe no
 		// earlier group mentions, and the file is padded with comment lines in front of
 		// that group to a size from {5 kB, 66 kB, 200 kB, 1 MiB}: the end of a large file
